@@ -222,7 +222,15 @@ func VerifC16StraddleV1() {
 	extra := nd.Choice("with-the-straddling-placeholder", 2) == 1
 	var err error
 	var panicked bool
-	switch nd.Choice("request", 4) {
+	switch nd.Choice("request", 5) {
+	case 4:
+		extra = false
+		err, panicked = vCatch(func() error {
+			_, e := c.UpdateItem(&dynamodb.UpdateItemInput{TableName: aws.String(vTbl), Key: vItem{"p": vS("k")},
+				UpdateExpression: aws.String("SET #n = :v, #n1 = :v2"), ConditionExpression: aws.String("#n <> :v2 AND a <> :v"),
+				ExpressionAttributeNames: map[string]*string{"#n": aws.String("b"), "#n1": aws.String("c")}, ExpressionAttributeValues: vItem{":v": vS("y"), ":v2": vS("z")}})
+			return e
+		})
 	case 0:
 		vals := vItem{":p": vS("y")}
 		if extra {
